@@ -688,7 +688,19 @@ func runC03(c *Ctx) {
 			}
 		}
 		visit(cmpLoop.bound, 0)
-		c.verdict(len(odd) == 0 && len(g.sites) >= 1 && okInit, construct, c.at(cmpLoop.test), "bound raised on len(list) > bound, from 0", "the comparison bound is not the maximum of the list lengths ("+join(odd)+fmt.Sprintf("; %d raising edge(s), starts at 0: %v): lists are compared only along a shorter one", len(g.sites), okInit), c.at(cmpLoop.test))
+		// ... or raised with the max builtin: bound = max(bound, len(list))
+		raises := len(g.sites)
+		ir.Instrs(fn, func(in ssa.Instruction) {
+			call, ok := in.(*ssa.Call)
+			if !ok || !isBuiltin("max")(call) || len(call.Call.Args) != 2 {
+				return
+			}
+			a, b := call.Call.Args[0], call.Call.Args[1]
+			if (isBound(a) && isLen(b) || isBound(b) && isLen(a)) && ir.DerivesFrom(cmpLoop.bound, func(x ssa.Value) bool { return x == ssa.Value(call) }) {
+				raises++
+			}
+		})
+		c.verdict(len(odd) == 0 && raises >= 1 && okInit, construct, c.at(cmpLoop.test), "bound raised on len(list) > bound, from 0", "the comparison bound is not the maximum of the list lengths ("+join(odd)+fmt.Sprintf("; %d raising edge(s), starts at 0: %v): lists are compared only along a shorter one", raises, okInit), c.at(cmpLoop.test))
 	})
 
 	c.rule("C03.W1", "only the tabled functions write or roll back the filter-header store", func() {
